@@ -257,9 +257,9 @@ def main(replay=None):
         zi, fi = core.fparse(line)
         if zi is None or zi[0] != 0:
             ck.violation("numeric: implementation failed on %s" % kind, "HeadMat/SVD/invert failed on %s: %s" % (name, line[:100]), rp); continue
-        n, npot, ndefl, nparts, nmesh, ncav, changed = zi[1:8]; worst, smin, smax, resid, cav, resid_ip, routes, sres, serr = fi
+        n, npot, ndefl, nparts, nmesh, ncav, changed, nzero = zi[1:9]; worst, smin, smax, resid, cav, resid_ip, routes, sres, serr = fi
         numeric.append(dict(model=name, n=n, potentials=npot, deflated_rows=ndefl, parts=nparts, rowsum_rel=worst, smin=smin, smax=smax, resid=resid,
-                            resid_invert_in_place=resid_ip, inverse_vs_invert=routes, solveLin_residual=sres, solveLin_error=serr, receiver_changed=changed,
+                            resid_invert_in_place=resid_ip, inverse_vs_invert=routes, solveLin_residual=sres, solveLin_error=serr, receiver_changed=changed, zero_rows=nzero,
                             cavity_walls=ncav, cavity_indicator_residual=cav))
         if changed & 1:
             ck.violation("inverse: A.inverse() const modifies A (%s)" % kind,
@@ -277,15 +277,21 @@ def main(replay=None):
         if ncav > 0 and cav > 1e-9:
             ck.violation("cavity wall: indicator not in the kernel (%s)" % kind,
                          "%s has %d current-barrier mesh(es) that deflate never touches, but |A*1_W|/max|A| = %.3g: theorem cavity_wall_indicator_in_kernel predicts 0 (Gauss' law for the D kernel or the block structure no longer holds)" % (name, ncav, cav), rp)
-        if not (smin > 1e-10 * smax) and ncav == 0 and nparts > 0:
-            ck.violation("singular head matrix without a cavity wall: %s" % kind,
-                         "the head matrix of %s is singular (sigma_min/sigma_max = %.3g) although every current-barrier mesh is deflated: not explained by cavity_wall_indicator_in_kernel" % (name, smin / smax if smax else 0.0), rp)
         if worst > 1e-9:
             ck.violation("row sums: %s" % kind, "a potential row off the deflated outer surfaces does not sum to zero over the potential columns on %s: |sum|/sum|.| = %.3g (theorem potential_rows_sum_zero_off_outer)" % (name, worst), rp)
         if not (smin > 1e-10 * smax):
-            what = "no part at all: the component bounded by a single mesh is skipped (conn.size()>1)" if nparts == 0 else "%d part(s), %d of %d potential rows regularised" % (nparts, ndefl, npot)
-            ck.violation("singular head matrix: %s" % kind,
-                         "the head matrix of %s is singular at rounding level after deflation: sigma_min/sigma_max = %.3g (%s)" % (name, smin / smax if smax else 0.0, what), rp)
+            ordering = "old ordering" if (idx < len(ids) and specs[idx][2]) else "default ordering"
+            ratio = smin / smax if smax else 0.0
+            if nzero > 0:
+                ck.violation("singular head matrix: all-zero rows (%s, %s)" % (kind, ordering),
+                             "the head matrix of %s has %d all-zero rows (unknowns that no block ever writes): sigma_min/sigma_max = %.3g" % (name, nzero, ratio), rp)
+            elif ncav > 0 or nparts == 0:
+                what = "no part at all: the component bounded by a single mesh is skipped" if nparts == 0 else "%d part(s), %d of %d potential rows regularised, %d current-barrier mesh(es) never deflated" % (nparts, ndefl, npot, ncav)
+                ck.violation("singular head matrix: %s" % kind,
+                             "the head matrix of %s is singular at rounding level after deflation: sigma_min/sigma_max = %.3g (%s)" % (name, ratio, what), rp)
+            else:
+                ck.violation("singular head matrix without a cavity wall: %s" % kind,
+                             "the head matrix of %s is singular (sigma_min/sigma_max = %.3g) although every current-barrier mesh is deflated and no row is empty: not explained by cavity_wall_indicator_in_kernel" % (name, ratio), rp)
         elif not (resid >= 0 and resid < 1e-9 * (smax / smin)):
             ck.violation("inverse: %s" % kind, "|A*inv(A)-I|max = %.3g exceeds 1e-9*cond (cond %.3g) on %s" % (resid, smax / smin, name), rp)
     ck.cov.update(evaluations=len(specs), distinct_nontrivial=len(set(specs)),
